@@ -185,7 +185,7 @@ var scenarios = map[string]scenario{
 		s.Fire()
 		s.N.Receive(s.Response(1, 0, p.Hash()))
 		s.N.Receive(s.Response(3, 0, p.Hash())) // M preparations of the others: the node sends its own pre-commit
-		s.N.Receive(s.PreCommit(2, p))           // own + invalid + one valid
+		s.N.Receive(s.PreCommit(2, p))          // own + invalid + one valid
 		return s.W
 	}},
 	// D21: a re-request on timeout found the missing transaction in the pool, filled it in silently and never
